@@ -67,10 +67,13 @@ static Verdict run_c17(const Case &c)
   bytes in_bytes;
   std::string in_path;
   bool in_is_wenc = false, in_authentic = false;
+  // a relative path of exactly `total` characters that names `name` in the scratch directory
   auto longpath = [&](const std::string &name, size_t total) {
     std::string p;
-    while (p.size() + name.size() + 2 < total)
+    while (p.size() + name.size() + 2 <= total)
       p += "./";
+    if (p.size() + name.size() < total && !p.empty())
+      p.insert(p.size() - 1, "/"); // ".//": one more character, same file
     return p + name;
   };
   size_t plong = (size_t)c.geti("pathlen", 200);
@@ -477,7 +480,7 @@ static Case gen_c17()
   c.seti("file_cmode", g::range(0, 5));
   c.seti("file_hmode", g::range(0, 3));
   c.seti("tamper", g::range(0, 4));
-  c.seti("pathlen", g::oneof<long>({123, 124, 130, 140, 200, 300, 1000, 3000}));
+  c.seti("pathlen", g::coin(50) ? g::oneof<long>({123, 124, 130, 140, 200, 300, 1000, 3000}) : g::coin(60) ? g::range(245, 265) : g::oneof<long>({127, 128, 129, 510, 511, 512, 513, 1023, 1024, 1025, 2047, 2048, 4000}));
   c.seti("asan", g::coin(25) ? 1 : 0);
   c.seti("followup", g::coin(40) ? 1 : 0);
   return c;
@@ -527,7 +530,7 @@ static void fixed_c17(Ctx &ctx)
     mk({{"cmode", cmv}});
   for (const char *hmv : {"3", "100", "-3", "256", "-1", "255"})
     mk({{"hmode", hmv}});
-  for (const char *pl : {"120", "122", "123", "124", "128", "130", "200", "1000", "3000"})
+  for (const char *pl : {"120", "122", "123", "124", "127", "128", "129", "130", "200", "245", "246", "247", "248", "249", "250", "251", "252", "253", "254", "255", "256", "257", "258", "259", "260", "261", "511", "512", "513", "1000", "1023", "1024", "1025", "3000"})
   {
     mk({{"input", "longplain"}, {"pathlen", pl}});
     mk({{"modes", "d"}, {"input", "longwenc"}, {"key", "right"}, {"output", "long"}, {"pathlen", pl}});
